@@ -20,5 +20,7 @@ def check(ctx, rep):
     _eff.eff_1(ctx, rep, only=[('parso/grammar.py', 'Grammar.parse')], minimum=20)
     rep.assume('Parser.error_recovery dereferences last_leaf (None when the top stack entry is empty) only for DEDENT '
                'tokens; that a DEDENT never arrives on an empty stack entry is a tokenizer invariant, not decided here')
+    from ..rules import par as _par14
+    _par14.par_14(ctx, rep)     # INDENT / DEDENT bookkeeping sees every token once (not the tokens recovery re-feeds)
     rep.note('Not decided: absence of every implicit exception; the shape clauses (root has no parent, last child is '
              'the end marker).')
